@@ -75,7 +75,16 @@ def main():
                 bad += 1
         finally:
             shutil.rmtree(tmp, ignore_errors=True)
-    json.dump(out, open(os.path.join(HERE, "replay_last.json"), "w"), indent=1)
+    p = os.path.join(HERE, "replay_last.json")
+    prev = []
+    if os.path.exists(p):
+        try:
+            prev = json.load(open(p))
+        except Exception:
+            prev = []
+    done = set(r["property"] for r in out)
+    merged = sorted([r for r in prev if r["property"] not in done] + out, key=lambda r: r["property"])
+    json.dump(merged, open(p, "w"), indent=1)
     print("REPLAY ROUND TRIP %s" % ("OK" if not bad else "BROKEN (%d)" % bad))
     return 1 if bad else 0
 
